@@ -183,3 +183,7 @@ def _atan2_abs(self):
 
 
 Atan2.__abs__ = _atan2_abs
+
+
+Angle.__format__ = lambda self, spec: "<angle>"
+Atan2.__format__ = lambda self, spec: "<atan2>"
